@@ -144,6 +144,16 @@ def gen_bounds(s):
   return omin, omax
 
 
+def init_safe_bounds(omin, omax):
+  """One-sided bounds for which lattice_lib.default_init_params yields a
+  non-empty initialisation range (otherwise the layer rejects the config)."""
+  if omin is not None and omax is None and omin >= 1.0:
+    omin = 0.5
+  if omax is not None and omin is None and omax <= 0.0:
+    omax = 0.5
+  return omin, omax
+
+
 def gen_output_init(s, omin, omax, n):
   lo = omin if omin is not None else (omax - 2.0 if omax is not None else -1.0)
   hi = omax if omax is not None else (omin + 2.0 if omin is not None else 1.0)
@@ -401,3 +411,743 @@ def oracle_features(feats):
 
 
 BUILDERS = {"premade": PremadeBuilder}
+
+
+# ---------------------------------------------------------------------------
+# Hand-assembled stacks: calibrators -> Lattice | Linear | KFL | RTL [-> PWL]
+
+
+def _inputs_for(keras, tf, feats):
+  ins = []
+  for f in feats:
+    dt = tf.int32 if f["type"] == "cat" else tf.float32
+    ins.append(keras.Input(shape=(1,), dtype=dt, name="in_" + f["name"]))
+  return ins
+
+
+def _calibrator(tfl, keras, f, out_min, out_max, name):
+  if f["type"] == "cat":
+    return tfl.layers.CategoricalCalibration(
+        num_buckets=f["num_buckets"],
+        output_min=out_min,
+        output_max=out_max,
+        monotonicities=([tuple(p) for p in f["monotonicity"]]
+                        if f["monotonicity"] else None),
+        default_input_value=f["default_value"],
+        kernel_initializer=f.get("cat_init", "uniform"),
+        name=name)
+  mono = f["monotonicity"]
+  if direction_of(f) == 0 and f["always_monotonic"]:
+    mono = 1
+  kwargs = {}
+  if f["default_value"] is not None:
+    kwargs.update(impute_missing=True, missing_input_value=f["default_value"])
+    if f.get("missing_output_frac") is not None:
+      # A user-chosen constant inside the calibrator's own output range.
+      lo = out_min if out_min is not None else 0.0
+      hi = out_max if out_max is not None else lo + 1.0
+      kwargs["missing_output_value"] = _r(
+          lo + f["missing_output_frac"] * (hi - lo), 3)
+  return tfl.layers.PWLCalibration(
+      input_keypoints=list(f["keypoints"]),
+      output_min=out_min,
+      output_max=out_max,
+      clamp_min=f["clamp_min"],
+      clamp_max=f["clamp_max"],
+      monotonicity=mono,
+      convexity=f["convexity"],
+      input_keypoints_type=f["keypoints_type"],
+      kernel_initializer=f.get("pwl_init", "equal_heights"),
+      num_projection_iterations=f.get("num_projection_iterations", 8),
+      name=name,
+      **kwargs)
+
+
+class StackBuilder(object):
+  NAME = "stack"
+  WEIGHT = {"C03": 0.45, "C11": 0.5}
+
+  @staticmethod
+  def gen(s, tier):
+    mid = s.weighted([("lattice", 4), ("linear", 2), ("kfl", 2), ("rtl", 2)])
+    size = s.weighted([(2, 5), (3, 3), (4, 1)])
+    n_feat = s.integer(1, 4) if mid != "rtl" else s.integer(2, 4)
+    same = mid in ("kfl", "rtl")
+    feats = []
+    for i in range(n_feat):
+      fs = s.sub("feature", i)
+      sz = size if same else fs.weighted([(2, 5), (3, 3), (4, 1)])
+      if fs.chance(0.25):
+        f = gen_categorical_feature(fs, "f%d" % i, sz)
+        f["cat_init"] = fs.choice(["uniform", "constant"])
+      else:
+        f = gen_numeric_feature(fs, "f%d" % i, sz, allow_unimodal=False)
+        f["pwl_init"] = fs.choice(["equal_heights", "equal_slopes"])
+        f["num_projection_iterations"] = fs.choice([8, 8, 4, 12])
+        if f["default_value"] is not None and fs.chance(0.4):
+          f["missing_output_frac"] = _r(fs.uniform(0.0, 1.0), 2)
+      feats.append(f)
+    omin, omax = gen_bounds(s)
+    if mid == "linear":
+      # Only the weighted-average form of Linear promises output bounds.
+      omin, omax = (0.0, 1.0) if s.chance(0.5) else (None, None)
+    if mid in ("lattice", "rtl"):
+      omin, omax = init_safe_bounds(omin, omax)
+    st = {
+        "mid": mid,
+        "combine": s.choice(["concat", "concat", "list"]),
+        "output_min": omin,
+        "output_max": omax,
+        "clip_inputs": s.chance(0.5),
+        "interpolation": s.choice(["hypercube", "simplex"]),
+        "monotonic_at_every_step": not s.chance(0.15),
+        "num_projection_iterations": s.choice([10, 10, 5, 15]),
+        "num_terms": s.integer(1, 3),
+        "kernel_init": s.choice(["default", "linear_initializer",
+                                 "random_monotonic_initializer"]),
+        "out_calib": s.chance(0.25),
+        "out_calib_keypoints": s.integer(2, 4),
+        "use_bias": s.chance(0.5),
+        "rtl": {"num_lattices": s.integer(2, 3), "lattice_rank": s.integer(2, 3),
+                "random_seed": s.integer(0, 99),
+                "parameterization": s.choice(["all_vertices",
+                                              "kronecker_factored"]),
+                "avoid_intragroup_interaction": s.chance(0.7)},
+    }
+    while st["rtl"]["num_lattices"] * st["rtl"]["lattice_rank"] < n_feat:
+      st["rtl"]["num_lattices"] += 1
+    if mid == "kfl" or (mid == "rtl" and
+                        st["rtl"]["parameterization"] == "kronecker_factored"):
+      st["interpolation"] = "hypercube"
+    if mid == "lattice" and st["kernel_init"] == "random_monotonic_initializer":
+      pass
+    return {"builder": "stack", "features": feats, "stack": st}
+
+  @staticmethod
+  def build(spec):
+    tf, keras, tfl = env.mods()
+    feats, st = spec["features"], spec["stack"]
+    ins = _inputs_for(keras, tf, feats)
+    mid = st["mid"]
+    cal = []
+    for f, x in zip(feats, ins):
+      if mid == "linear":
+        rng_min, rng_max = 0.0, 1.0
+      else:
+        rng_min, rng_max = 0.0, f["lattice_size"] - 1.0
+      cal.append(_calibrator(tfl, keras, f, rng_min, rng_max,
+                             "calib_" + f["name"])(x))
+    monos = [1 if (direction_of(f) != 0 or
+                   (f["type"] == "cat" and f["monotonicity"])) else 0
+             for f in feats]
+    if mid == "lattice":
+      kw = {}
+      if st["kernel_init"] != "default":
+        kw["kernel_initializer"] = st["kernel_init"]
+      layer = tfl.layers.Lattice(
+          lattice_sizes=[f["lattice_size"] for f in feats],
+          monotonicities=monos,
+          output_min=st["output_min"],
+          output_max=st["output_max"],
+          clip_inputs=st["clip_inputs"],
+          interpolation=st["interpolation"],
+          monotonic_at_every_step=st["monotonic_at_every_step"],
+          num_projection_iterations=st["num_projection_iterations"],
+          name="mid_lattice",
+          **kw)
+      x = cal if st["combine"] == "list" else (
+          keras.layers.Concatenate(axis=1)(cal) if len(cal) > 1 else cal[0])
+      y = layer(x)
+    elif mid == "kfl":
+      layer = tfl.layers.KroneckerFactoredLattice(
+          lattice_sizes=feats[0]["lattice_size"],
+          num_terms=st["num_terms"],
+          monotonicities=monos,
+          output_min=st["output_min"],
+          output_max=st["output_max"],
+          clip_inputs=st["clip_inputs"],
+          name="mid_kfl")
+      x = cal if st["combine"] == "list" else (
+          keras.layers.Concatenate(axis=1)(cal) if len(cal) > 1 else cal[0])
+      y = layer(x)
+    elif mid == "linear":
+      bounded = st["output_min"] is not None
+      layer = tfl.layers.Linear(
+          num_input_dims=len(feats),
+          monotonicities=[1] * len(feats) if bounded else monos,
+          normalization_order=1 if bounded else None,
+          use_bias=False if bounded else st["use_bias"],
+          kernel_initializer=keras.initializers.Constant(1.0 / len(feats)),
+          name="mid_linear")
+      x = keras.layers.Concatenate(axis=1)(cal) if len(cal) > 1 else cal[0]
+      y = layer(x)
+    else:
+      r = st["rtl"]
+      groups = {}
+      for c, m in zip(cal, monos):
+        groups.setdefault("increasing" if m else "unconstrained", []).append(c)
+      rtl_in = {k: (keras.layers.Concatenate(axis=1)(v) if len(v) > 1 else v[0])
+                for k, v in groups.items()}
+      layer = tfl.layers.RTL(
+          num_lattices=r["num_lattices"],
+          lattice_rank=r["lattice_rank"],
+          lattice_size=feats[0]["lattice_size"],
+          output_min=st["output_min"],
+          output_max=st["output_max"],
+          random_seed=r["random_seed"],
+          clip_inputs=st["clip_inputs"],
+          interpolation=st["interpolation"],
+          parameterization=r["parameterization"],
+          num_terms=st["num_terms"],
+          avoid_intragroup_interaction=r["avoid_intragroup_interaction"],
+          monotonic_at_every_step=st["monotonic_at_every_step"],
+          average_outputs=True,
+          kernel_initializer=("kfl_random_monotonic_initializer"
+                              if r["parameterization"] == "kronecker_factored"
+                              else "random_monotonic_initializer"),
+          name="mid_rtl")
+      y = layer(rtl_in)
+    if st["out_calib"]:
+      lo, hi = st["output_min"], st["output_max"]
+      if lo is not None and hi is not None:
+        kps = np.linspace(lo, hi, st["out_calib_keypoints"]).tolist()
+      else:
+        base = lo if lo is not None else (hi - 4.0 if hi is not None else -2.0)
+        kps = np.linspace(base, base + 4.0, st["out_calib_keypoints"]).tolist()
+      y = tfl.layers.PWLCalibration(
+          input_keypoints=[_r(k, 4) for k in kps],
+          output_min=lo, output_max=hi, monotonicity=1,
+          name="out_calib")(y)
+    return keras.Model(inputs=ins, outputs=y)
+
+  @staticmethod
+  def features(spec):
+    return oracle_features(spec["features"])
+
+  @staticmethod
+  def bounds(spec):
+    return spec["stack"]["output_min"], spec["stack"]["output_max"]
+
+  @staticmethod
+  def deferred_strictness(spec):
+    """True if strict monotonicity is only promised after finalize."""
+    st = spec["stack"]
+    return (st["mid"] in ("lattice", "rtl") and
+            not st["monotonic_at_every_step"])
+
+  @staticmethod
+  def simplifications(spec):
+    out = []
+    st = spec["stack"]
+    for key, val in (("out_calib", False), ("combine", "concat"),
+                     ("interpolation", "hypercube"),
+                     ("monotonic_at_every_step", True),
+                     ("kernel_init", "default")):
+      if st.get(key) != val:
+        st2 = dict(st)
+        st2[key] = val
+        out.append(dict(spec, stack=st2))
+    feats = spec["features"]
+    if len(feats) > 1 and st["mid"] != "rtl":
+      for i in range(len(feats)):
+        out.append(dict(spec, features=feats[:i] + feats[i + 1:]))
+    for i, f in enumerate(feats):
+      if f["type"] == "num":
+        for key, val in (("convexity", 0), ("keypoints_type", "fixed"),
+                         ("clamp_min", False), ("clamp_max", False),
+                         ("default_value", None),
+                         ("always_monotonic", False)):
+          if f.get(key) != val and f.get(key):
+            f2 = dict(f)
+            f2[key] = val
+            if key == "default_value":
+              f2.pop("missing_output_frac", None)
+            out.append(dict(spec, features=feats[:i] + [f2] + feats[i + 1:]))
+    return out
+
+
+BUILDERS["stack"] = StackBuilder
+
+
+# ---------------------------------------------------------------------------
+# Single tfl layers with non-default constructor arguments (C11 only)
+
+
+def _plain_inputs(keras, tf, n, prefix="x"):
+  return [keras.Input(shape=(1,), dtype=tf.float32, name="%s%d" % (prefix, i))
+          for i in range(n)]
+
+
+def _num_feature(name, lo, hi, missing=None, strict=False):
+  return {"name": name, "type": "num", "direction": 0,
+          "keypoints": [float(lo), float(hi)], "missing": missing,
+          "strict_range": strict}
+
+
+def _lattice_feature(name, size, clip):
+  """In-range probes only when the layer does not clip its inputs."""
+  if clip:
+    return _num_feature(name, -0.5, size - 0.5)
+  return _num_feature(name, 0.0, size - 1.0, strict=True)
+
+
+def _reg_arg(s, names, dims=None):
+  """A kernel_regularizer argument in one of the accepted spellings."""
+  if not s.chance(0.5):
+    return None
+  name = s.choice(names)
+  l1 = _r(s.log10_uniform(-4, -1), 5)
+  l2 = _r(s.log10_uniform(-4, -1), 5)
+  if dims and s.chance(0.4):
+    l1 = [_r(l1 * (i + 1), 5) for i in range(dims)]
+  style = s.choice(["tuple", "list1", "list2"])
+  if style == "tuple":
+    return {"style": "tuple", "items": [[name, l1, l2]]}
+  if style == "list1":
+    return {"style": "list", "items": [[name, l1, l2]]}
+  other = s.choice(names)
+  return {"style": "list", "items": [[name, l1, l2], [other, l2, 0.0]]}
+
+
+def _reg_build(arg):
+  if arg is None:
+    return None
+  items = [tuple(tuple(x) if isinstance(x, list) and i == -1 else x
+                 for i, x in enumerate(it)) for it in arg["items"]]
+  items = [(it[0], it[1], it[2]) for it in arg["items"]]
+  if arg["style"] == "tuple":
+    return items[0]
+  return items
+
+
+class LayerBuilder(object):
+  NAME = "layer"
+  WEIGHT = {"C03": 0.0, "C11": 1.2}
+
+  KINDS = ("pwl", "cat", "lattice", "linear", "kfl", "rtl", "cdf", "parallel")
+
+  @staticmethod
+  def gen(s, tier):
+    kind = s.weighted([("pwl", 3), ("cat", 2), ("lattice", 4), ("linear", 3),
+                       ("kfl", 2), ("rtl", 3), ("cdf", 2), ("parallel", 2)])
+    a = {}
+    if kind == "pwl":
+      a["input_keypoints"] = gen_keypoints(s)
+      a["units"] = s.weighted([(1, 3), (2, 2), (3, 1)])
+      mono = s.choice([0, 1, -1, "none", "increasing", "decreasing"])
+      a["monotonicity"] = mono
+      is_mono = mono not in (0, "none")
+      a["convexity"] = s.choice([0, 0, 1, -1, "convex", "concave", "none"])
+      a["is_cyclic"] = bool(not is_mono and a["convexity"] in (0, "none") and
+                            s.chance(0.3))
+      omin, omax = gen_bounds(s)
+      a["output_min"], a["output_max"] = omin, omax
+      a["clamp_min"] = bool(is_mono and omin is not None and s.chance(0.3))
+      a["clamp_max"] = bool(is_mono and omax is not None and s.chance(0.3))
+      a["kernel_initializer"] = ("equal_heights" if a["is_cyclic"] else
+                                 s.choice(["equal_heights", "equal_slopes"]))
+      a["kernel_regularizer"] = _reg_arg(s, ["laplacian", "hessian", "wrinkle"])
+      a["impute_missing"] = s.chance(0.5)
+      a["missing_input_value"] = (_r(a["input_keypoints"][0] - 1.0, 2)
+                                  if a["impute_missing"] else None)
+      a["missing_output_value"] = None
+      if a["impute_missing"] and s.chance(0.5):
+        lo = omin if omin is not None else -1.0
+        hi = omax if omax is not None else lo + 2.0
+        a["missing_output_value"] = _r(s.uniform(lo, hi), 3)
+      a["num_projection_iterations"] = s.choice([8, 4, 12])
+      a["split_outputs"] = bool(a["units"] > 1 and s.chance(0.4))
+      a["input_keypoints_type"] = (
+          "learned_interior" if a["convexity"] in (0, "none") and
+          not a["is_cyclic"] and s.chance(0.3) else "fixed")
+    elif kind == "cat":
+      a["num_buckets"] = s.integer(2, 6)
+      a["units"] = s.weighted([(1, 3), (2, 2), (3, 1)])
+      omin, omax = gen_bounds(s)
+      a["output_min"], a["output_max"] = omin, omax
+      f = gen_categorical_feature(s.sub("pairs"), "c", 2)
+      nb = a["num_buckets"]
+      a["monotonicities"] = ([p for p in f["monotonicity"]
+                              if p[0] < nb and p[1] < nb] or None
+                             if f["monotonicity"] else None)
+      a["kernel_initializer"] = s.choice(["uniform", "constant"])
+      a["l1l2"] = s.chance(0.4)
+      a["default_input_value"] = -1 if s.chance(0.4) else None
+      a["split_outputs"] = bool(a["units"] > 1 and s.chance(0.4))
+    elif kind == "lattice":
+      dims = s.integer(1, 3)
+      sizes = [s.weighted([(2, 4), (3, 3), (4, 1)]) for _ in range(dims)]
+      a["lattice_sizes"] = sizes
+      a["units"] = s.weighted([(1, 3), (2, 2)])
+      monos = [int(s.chance(0.5)) for _ in range(dims)]
+      a["monotonicities"] = s.choice([
+          monos, ["increasing" if m else "none" for m in monos]])
+      free = [d for d in range(dims) if not monos[d] and sizes[d] >= 3]
+      a["unimodalities"] = None
+      a["joint_unimodalities"] = None
+      if free and s.chance(0.35):
+        un = [0] * dims
+        un[free[0]] = s.choice([1, -1, "valley", "peak"])
+        a["unimodalities"] = un
+      elif len(free) >= 2 and s.chance(0.5):
+        ju = [[free[0], free[1]], s.choice(["valley", "peak"])]
+        a["joint_unimodalities"] = {"single": s.chance(0.5), "value": ju}
+      mains = [d for d in range(dims) if monos[d]]
+      conds = [d for d in range(dims) if not monos[d]]
+      used_un = set()
+      if a["unimodalities"]:
+        used_un = {d for d, u in enumerate(a["unimodalities"]) if u}
+      if a["joint_unimodalities"]:
+        used_un |= set(a["joint_unimodalities"]["value"][0])
+      a["edgeworth_trusts"] = None
+      a["trapezoid_trusts"] = None
+      cands = [c for c in conds if c not in used_un]
+      if mains and cands and s.chance(0.4):
+        t = [mains[0], cands[0], s.choice(["positive", "negative"])]
+        key = s.choice(["edgeworth_trusts", "trapezoid_trusts"])
+        a[key] = {"single": s.chance(0.5), "value": [t]}
+      a["monotonic_dominances"] = None
+      a["range_dominances"] = None
+      a["joint_monotonicities"] = None
+      if len(mains) >= 2 and s.chance(0.4):
+        key = s.choice(["monotonic_dominances", "range_dominances"])
+        a[key] = {"single": s.chance(0.5), "value": [[mains[0], mains[1]]]}
+      free2 = [c for c in conds if c not in used_un]
+      if len(free2) >= 2 and s.chance(0.3):
+        a["joint_monotonicities"] = {"single": s.chance(0.5),
+                                     "value": [[free2[0], free2[1]]]}
+      omin, omax = init_safe_bounds(*gen_bounds(s))
+      a["output_min"], a["output_max"] = omin, omax
+      a["num_projection_iterations"] = s.choice([10, 5, 15])
+      a["monotonic_at_every_step"] = not s.chance(0.25)
+      a["clip_inputs"] = s.chance(0.6)
+      a["interpolation"] = s.choice(["hypercube", "simplex"])
+      inits = ["random_uniform_or_linear_initializer", "linear_initializer"]
+      if not a["unimodalities"] and not a["joint_unimodalities"]:
+        inits.append("random_monotonic_initializer")
+      a["kernel_initializer"] = s.choice(inits)
+      a["kernel_regularizer"] = _reg_arg(s, ["torsion", "laplacian"], dims)
+    elif kind == "linear":
+      n = s.integer(1, 4)
+      a["num_input_dims"] = n
+      a["units"] = s.weighted([(1, 3), (2, 2)])
+      monos = [s.choice([0, 1, -1]) for _ in range(n)]
+      a["monotonicities"] = s.choice([
+          monos, [{0: "none", 1: "increasing", -1: "decreasing"}[m]
+                  for m in monos]])
+      inc = [d for d in range(n) if monos[d] == 1]
+      a["monotonic_dominances"] = None
+      a["range_dominances"] = None
+      a["input_min"] = None
+      a["input_max"] = None
+      if len(inc) >= 2 and s.chance(0.5):
+        if s.chance(0.5):
+          a["monotonic_dominances"] = {"single": False,
+                                       "value": [[inc[0], inc[1]]]}
+        else:
+          a["range_dominances"] = {"single": False,
+                                   "value": [[inc[0], inc[1]]]}
+          a["input_min"] = [0.0] * n
+          a["input_max"] = [_r(s.uniform(0.5, 3.0), 2) for _ in range(n)]
+      elif s.chance(0.2):
+        a["input_min"] = [None if s.chance(0.3) else -1.0 for _ in range(n)]
+        a["input_max"] = [None if s.chance(0.3) else 2.0 for _ in range(n)]
+      a["use_bias"] = s.chance(0.6)
+      a["normalization_order"] = s.choice([None, None, 1, 2])
+      a["l1l2_kernel"] = s.chance(0.3)
+      a["l1l2_bias"] = bool(a["use_bias"] and s.chance(0.3))
+    elif kind == "kfl":
+      dims = s.integer(1, 3)
+      a["dims"] = dims
+      a["lattice_sizes"] = s.weighted([(2, 4), (3, 3), (4, 1)])
+      a["units"] = s.weighted([(1, 3), (2, 2)])
+      a["num_terms"] = s.integer(1, 4)
+      monos = [int(s.chance(0.5)) for _ in range(dims)]
+      a["monotonicities"] = s.choice([
+          None, monos, ["increasing" if m else "none" for m in monos]])
+      omin, omax = gen_bounds(s)
+      a["output_min"], a["output_max"] = omin, omax
+      a["clip_inputs"] = s.chance(0.6)
+      a["seeded_init"] = s.chance(0.4)
+      a["init_seed"] = s.integer(0, 999)
+    elif kind == "rtl":
+      a["n_unconstrained"] = s.integer(0, 3)
+      a["n_increasing"] = s.integer(0, 3)
+      if a["n_unconstrained"] + a["n_increasing"] == 0:
+        a["n_increasing"] = 2
+      n_in = a["n_unconstrained"] + a["n_increasing"]
+      a["lattice_rank"] = s.integer(1, 3)
+      a["num_lattices"] = s.integer(1, 4)
+      while a["num_lattices"] * a["lattice_rank"] < n_in:
+        a["num_lattices"] += 1
+      a["lattice_size"] = s.weighted([(2, 4), (3, 2)])
+      omin, omax = init_safe_bounds(*gen_bounds(s))
+      a["output_min"], a["output_max"] = omin, omax
+      a["init_bounds"] = s.chance(0.3)
+      a["separate_outputs"] = s.chance(0.3)
+      a["random_seed"] = s.integer(0, 10000)
+      a["num_projection_iterations"] = s.choice([10, 6])
+      a["monotonic_at_every_step"] = not s.chance(0.2)
+      a["clip_inputs"] = s.chance(0.7)
+      a["parameterization"] = s.choice(["all_vertices", "all_vertices",
+                                        "kronecker_factored"])
+      a["interpolation"] = ("hypercube" if a["parameterization"] ==
+                            "kronecker_factored" else
+                            s.choice(["hypercube", "simplex"]))
+      a["num_terms"] = s.integer(1, 3)
+      a["avoid_intragroup_interaction"] = s.chance(0.6)
+      a["kernel_regularizer"] = (
+          _reg_arg(s, ["torsion", "laplacian"]) if a["parameterization"] ==
+          "all_vertices" else None)
+      a["average_outputs"] = bool(not a["separate_outputs"] and s.chance(0.4))
+      a["input_style"] = s.choice(["tensor", "list"])
+    elif kind == "cdf":
+      a["dims"] = s.choice([1, 2, 4])
+      a["num_keypoints"] = s.integer(2, 6)
+      a["sparsity_factor"] = s.choice([1, 1, 2]) if a["dims"] % 2 == 0 else 1
+      a["units"] = s.choice([1, 2, 4]) if a["sparsity_factor"] == 1 else (
+          s.choice([2, 4]))
+      a["activation"] = s.choice(["relu6", "sigmoid"])
+      a["reduction"] = s.choice(["mean", "geometric_mean", "none"])
+      a["input_scaling_init"] = s.choice([None, 2.0, 0.5])
+      a["input_scaling_type"] = s.choice(["fixed", "learned_shared",
+                                          "learned_per_input"])
+      a["input_scaling_monotonicity"] = s.choice(["increasing", "none", 1, 0])
+    else:  # parallel
+      n = s.integer(1, 3)
+      subs = []
+      for i in range(n):
+        fs = s.sub("sub", i)
+        if fs.chance(0.35):
+          f = gen_categorical_feature(fs, "p%d" % i, 2)
+          f["cat_init"] = "uniform"
+        else:
+          f = gen_numeric_feature(fs, "p%d" % i, 2, False)
+          f["clamp_min"] = f["clamp_max"] = False
+        subs.append(f)
+      a["subs"] = subs
+      a["single_output"] = s.chance(0.6)
+      omin, omax = gen_bounds(s)
+      a["output_min"], a["output_max"] = omin, omax
+    return {"builder": "layer", "kind": kind, "args": a}
+
+  @staticmethod
+  def _maybe_single(v):
+    """Constraint lists may be given as a single tuple."""
+    if v is None:
+      return None
+    items = []
+    for it in v["value"]:
+      items.append(tuple(tuple(x) if isinstance(x, list) else x for x in it))
+    return items[0] if v["single"] else items
+
+  @staticmethod
+  def build(spec):
+    tf, keras, tfl = env.mods()
+    kind, a = spec["kind"], spec["args"]
+    ms = LayerBuilder._maybe_single
+    if kind == "pwl":
+      ins = _plain_inputs(keras, tf, 1)
+      layer = tfl.layers.PWLCalibration(
+          input_keypoints=list(a["input_keypoints"]), units=a["units"],
+          output_min=a["output_min"], output_max=a["output_max"],
+          clamp_min=a["clamp_min"], clamp_max=a["clamp_max"],
+          monotonicity=a["monotonicity"], convexity=a["convexity"],
+          is_cyclic=a["is_cyclic"], kernel_initializer=a["kernel_initializer"],
+          kernel_regularizer=_reg_build(a["kernel_regularizer"]),
+          impute_missing=a["impute_missing"],
+          missing_input_value=a["missing_input_value"],
+          missing_output_value=a["missing_output_value"],
+          num_projection_iterations=a["num_projection_iterations"],
+          split_outputs=a["split_outputs"],
+          input_keypoints_type=a["input_keypoints_type"], name="the_layer")
+      y = layer(ins[0])
+    elif kind == "cat":
+      ins = [keras.Input(shape=(1,), dtype=tf.int32, name="x0")]
+      layer = tfl.layers.CategoricalCalibration(
+          num_buckets=a["num_buckets"], units=a["units"],
+          output_min=a["output_min"], output_max=a["output_max"],
+          monotonicities=([tuple(p) for p in a["monotonicities"]]
+                          if a["monotonicities"] else None),
+          kernel_initializer=a["kernel_initializer"],
+          kernel_regularizer=(keras.regularizers.l1_l2(0.01, 0.001)
+                              if a["l1l2"] else None),
+          default_input_value=a["default_input_value"],
+          split_outputs=a["split_outputs"], name="the_layer")
+      x = ins[0]
+      if a["units"] > 1:
+        x = keras.layers.Concatenate(axis=1)([x] * a["units"])
+      y = layer(x)
+    elif kind == "lattice":
+      dims = len(a["lattice_sizes"])
+      ins = _plain_inputs(keras, tf, dims)
+      ju = a["joint_unimodalities"]
+      ju_arg = None
+      if ju is not None:
+        one = (tuple(ju["value"][0]), ju["value"][1])
+        ju_arg = one if ju["single"] else [one]
+      layer = tfl.layers.Lattice(
+          lattice_sizes=list(a["lattice_sizes"]), units=a["units"],
+          monotonicities=a["monotonicities"], unimodalities=a["unimodalities"],
+          edgeworth_trusts=ms(a["edgeworth_trusts"]),
+          trapezoid_trusts=ms(a["trapezoid_trusts"]),
+          monotonic_dominances=ms(a["monotonic_dominances"]),
+          range_dominances=ms(a["range_dominances"]),
+          joint_monotonicities=ms(a["joint_monotonicities"]),
+          joint_unimodalities=ju_arg,
+          output_min=a["output_min"], output_max=a["output_max"],
+          num_projection_iterations=a["num_projection_iterations"],
+          monotonic_at_every_step=a["monotonic_at_every_step"],
+          clip_inputs=a["clip_inputs"], interpolation=a["interpolation"],
+          kernel_initializer=a["kernel_initializer"],
+          kernel_regularizer=_reg_build(a["kernel_regularizer"]),
+          name="the_layer")
+      x = keras.layers.Concatenate(axis=1)(ins) if dims > 1 else ins[0]
+      if a["units"] > 1:
+        x = keras.layers.RepeatVector(a["units"])(x)
+      y = layer(x)
+    elif kind == "linear":
+      n = a["num_input_dims"]
+      ins = _plain_inputs(keras, tf, n)
+      layer = tfl.layers.Linear(
+          num_input_dims=n, units=a["units"],
+          monotonicities=a["monotonicities"],
+          monotonic_dominances=ms(a["monotonic_dominances"]),
+          range_dominances=ms(a["range_dominances"]),
+          input_min=a["input_min"], input_max=a["input_max"],
+          use_bias=a["use_bias"],
+          normalization_order=a["normalization_order"],
+          kernel_regularizer=(keras.regularizers.l1_l2(0.01, 0.002)
+                              if a["l1l2_kernel"] else None),
+          bias_regularizer=(keras.regularizers.l2(0.01)
+                            if a["l1l2_bias"] else None),
+          name="the_layer")
+      x = keras.layers.Concatenate(axis=1)(ins) if n > 1 else ins[0]
+      if a["units"] > 1:
+        x = keras.layers.RepeatVector(a["units"])(x)
+      y = layer(x)
+    elif kind == "kfl":
+      dims = a["dims"]
+      ins = _plain_inputs(keras, tf, dims)
+      kw = {}
+      if a["seeded_init"]:
+        kw["kernel_initializer"] = (
+            tfl.kronecker_factored_lattice_layer.KFLRandomMonotonicInitializer(
+                monotonicities=a["monotonicities"], init_min=0.25,
+                init_max=1.25, seed=a["init_seed"]))
+      layer = tfl.layers.KroneckerFactoredLattice(
+          lattice_sizes=a["lattice_sizes"], units=a["units"],
+          num_terms=a["num_terms"], monotonicities=a["monotonicities"],
+          output_min=a["output_min"], output_max=a["output_max"],
+          clip_inputs=a["clip_inputs"], name="the_layer", **kw)
+      x = keras.layers.Concatenate(axis=1)(ins) if dims > 1 else ins[0]
+      if a["units"] > 1:
+        x = keras.layers.RepeatVector(a["units"])(x)
+      y = layer(x)
+    elif kind == "rtl":
+      nu, ni = a["n_unconstrained"], a["n_increasing"]
+      ins = _plain_inputs(keras, tf, nu + ni)
+      d = {}
+      for key, group in (("unconstrained", ins[:nu]), ("increasing", ins[nu:])):
+        if not group:
+          continue
+        if a["input_style"] == "list" and len(group) > 1:
+          d[key] = list(group)
+        else:
+          d[key] = (keras.layers.Concatenate(axis=1)(group)
+                    if len(group) > 1 else group[0])
+      kw = {}
+      if a["init_bounds"]:
+        kw.update(init_min=0.0, init_max=1.0)
+      layer = tfl.layers.RTL(
+          num_lattices=a["num_lattices"], lattice_rank=a["lattice_rank"],
+          lattice_size=a["lattice_size"], output_min=a["output_min"],
+          output_max=a["output_max"],
+          separate_outputs=a["separate_outputs"],
+          random_seed=a["random_seed"],
+          num_projection_iterations=a["num_projection_iterations"],
+          monotonic_at_every_step=a["monotonic_at_every_step"],
+          clip_inputs=a["clip_inputs"], interpolation=a["interpolation"],
+          parameterization=a["parameterization"], num_terms=a["num_terms"],
+          avoid_intragroup_interaction=a["avoid_intragroup_interaction"],
+          kernel_initializer=("kfl_random_monotonic_initializer"
+                              if a["parameterization"] == "kronecker_factored"
+                              else "random_monotonic_initializer"),
+          kernel_regularizer=_reg_build(a["kernel_regularizer"]),
+          average_outputs=a["average_outputs"], name="the_layer", **kw)
+      y = layer(d)
+      if isinstance(y, dict):
+        y = [y[k] for k in sorted(y)]
+    elif kind == "cdf":
+      dims = a["dims"]
+      ins = _plain_inputs(keras, tf, dims)
+      layer = tfl.layers.CDF(
+          num_keypoints=a["num_keypoints"], units=a["units"],
+          activation=a["activation"], reduction=a["reduction"],
+          input_scaling_init=a["input_scaling_init"],
+          input_scaling_type=a["input_scaling_type"],
+          input_scaling_monotonicity=a["input_scaling_monotonicity"],
+          sparsity_factor=a["sparsity_factor"], name="the_layer")
+      x = keras.layers.Concatenate(axis=1)(ins) if dims > 1 else ins[0]
+      y = layer(x)
+      if a["reduction"] == "none":
+        y = keras.layers.Flatten()(y)
+    else:
+      subs = a["subs"]
+      ins = _plain_inputs(keras, tf, len(subs))
+      layer = tfl.layers.ParallelCombination(
+          single_output=a["single_output"], name="the_layer")
+      for i, f in enumerate(subs):
+        layer.append(_calibrator(tfl, keras, f, a["output_min"],
+                                 a["output_max"], "sub_%d" % i))
+      x = keras.layers.Concatenate(axis=1)(ins) if len(subs) > 1 else ins[0]
+      y = layer(x)
+    if isinstance(y, (list, tuple)):
+      y = keras.layers.Concatenate(axis=1)(list(y)) if len(y) > 1 else y[0]
+    return keras.Model(inputs=ins, outputs=y)
+
+  @staticmethod
+  def features(spec):
+    kind, a = spec["kind"], spec["args"]
+    if kind == "pwl":
+      kp = a["input_keypoints"]
+      return [_num_feature("x0", kp[0], kp[-1], a["missing_input_value"])]
+    if kind == "cat":
+      return [{"name": "x0", "type": "cat", "num_buckets": a["num_buckets"],
+               "pairs": [], "default": a["default_input_value"]}]
+    if kind == "lattice":
+      return [_lattice_feature("x%d" % i, sz, a["clip_inputs"])
+              for i, sz in enumerate(a["lattice_sizes"])]
+    if kind == "linear":
+      return [_num_feature("x%d" % i, -3.0, 3.0)
+              for i in range(a["num_input_dims"])]
+    if kind == "kfl":
+      return [_lattice_feature("x%d" % i, a["lattice_sizes"], a["clip_inputs"])
+              for i in range(a["dims"])]
+    if kind == "rtl":
+      return [_lattice_feature("x%d" % i, a["lattice_size"], a["clip_inputs"])
+              for i in range(a["n_unconstrained"] + a["n_increasing"])]
+    if kind == "cdf":
+      return [_num_feature("x%d" % i, -0.5, 1.5) for i in range(a["dims"])]
+    out = []
+    for i, f in enumerate(a["subs"]):
+      if f["type"] == "cat":
+        # ParallelCombination feeds floats; valid bucket ids only.
+        out.append(_num_feature("x%d" % i, 0.0, f["num_buckets"] - 1.0))
+        out[-1]["integral"] = True
+        out[-1]["default"] = f["default_value"]
+      else:
+        out.append(_num_feature("x%d" % i, f["keypoints"][0],
+                                f["keypoints"][-1], f["default_value"]))
+    return out
+
+  @staticmethod
+  def bounds(spec):
+    return None, None
+
+  @staticmethod
+  def simplifications(spec):
+    return []
+
+
+BUILDERS["layer"] = LayerBuilder
